@@ -16,6 +16,7 @@ import (
 	"fmt"
 	"hash/crc32"
 	"os"
+	"runtime"
 	"strconv"
 	"strings"
 	"sync"
@@ -305,4 +306,18 @@ func vxReplayMain(harnesses map[string]func()) (verdict, detail string) {
 	}()
 	fn()
 	return "NO-VIOLATION", ""
+}
+
+// vxAllocs: symbolically the number of heap-allocation sites f executes (engine/alloc.go);
+// natively the number of mallocs of ONE call of f on one P (the measurement of
+// testing.AllocsPerRun without its warm-up call and averaging: the harness does its own
+// warm-up, and an allocation that only the first call after some history performs must count).
+func vxAllocs(f func()) int {
+	defer runtime.GOMAXPROCS(runtime.GOMAXPROCS(1))
+	var ms runtime.MemStats
+	runtime.ReadMemStats(&ms)
+	before := ms.Mallocs
+	f()
+	runtime.ReadMemStats(&ms)
+	return int(ms.Mallocs - before)
 }
